@@ -334,6 +334,7 @@ def normalize_desc(d):
     d = re.sub(r"\d{6}\.wal", "N.wal", d)
     d = re.sub(r"\+\d+@\d+", "", d)
     d = re.sub(r"ftruncate (\S+) \d+", r"ftruncate \1", d)
+    d = re.sub(r"to \d+ of \d+ bytes", "", d)
     return d.strip()
 
 
@@ -426,6 +427,28 @@ def unlink_permutation_points(points, root):
                     ",".join(os.path.basename(x) for x in sub), ",".join(os.path.basename(x) for x in names if x not in sub)),
                     points[j - 1].ntrace if False else points[i - 1].ntrace, snap, "perm", points[i].line, perm=True))
         i = max(j, i + 1)
+    return extra
+
+
+def wal_cut_points(points, root, max_images=2, span=120):
+    """Asynchronous WAL: the buffered writer flushes at offsets that are arbitrary relative to the records, so a kill can leave the
+    newest WAL file cut at any byte behind its 8-byte file header.  For the crash points with the largest newest WAL file, produce the
+    images with that file cut at each of the last `span` offsets."""
+    best = {}
+    for p in points:
+        files, _ = p.snap
+        wals = sorted(f for f in files if f.startswith(root + "/wal/") and f.endswith(".wal"))
+        if not wals or len(files[wals[-1]]) <= 8:
+            continue
+        key = (wals[-1], len(files[wals[-1]]))
+        best.setdefault(key, p)
+    extra = []
+    for (last, size), p in sorted(best.items(), key=lambda kv: -kv[0][1])[:max_images]:
+        files, dirs = p.snap
+        for L in range(max(8, size - span), size):
+            f2 = dict(files)
+            f2[last] = files[last][:L]
+            extra.append(CrashPoint(-1, "cut %s to %d of %d bytes" % (last[len(root) + 1:], L, size), p.ntrace, (f2, set(dirs)), "perm", p.line, perm=True))
     return extra
 
 
